@@ -440,7 +440,7 @@ impl Prop for C08 {
         "metamorphic over histories: 3 TCP flows (two with adjacent source ports, one differing from the first only in the destination address; data segments that acknowledge ANOTHER flow's cookie+1) each with its own byte stream (protocol requests, two requests back to back, garbage) delivered in generated chunks, interleaved in generated order with wrong-ack data segments, SYNs non-data TCP segments whose seq/ack are another flow's cookie, traffic sharing the flows' IP or MAC (ARP / NS / echo / SYN / UDP from the same IP with another MAC and vice versa), ICMP / ICMPv6 error messages quoting the responder's own SYN-ACK or UDP answer to the client (all error types and codes), answerable UDP datagrams from the flows' client with fixed ports, and unrelated noise (ARP, ICMP, ND, UDP application traffic, raw and lying-header frames, SYN floods on other ports). For EVERY position p of the history: the reply recorded at p must equal (after masking HTTP Date / SMB times) the reply to the same frame when the connection table is reset and only the accepted data segments of p's own 4-tuple that precede p are replayed. Crowds: a connection whose first segment was a complete request gets the same answer to its second segment (acknowledging the first answer or not) with 1100 / 4200 / 9000 / 66000 other connections validated in between as with none. Directed: two distinct 4-tuples with equal cookie found by a birthday search through the responder's cookie function. Non-trivial = at p another flow has accepted data and p is answered or is a data segment; distinct by case hash."
     }
     fn run(&self, ctx: &mut RunCtx) {
-        let n = ctx.share(ctx.tier.n(200_000, 3_000_000));
+        let n = ctx.share(ctx.tier.n(600_000, 6_000_000));
         ctx.run_generated("isolation", n, case_strategy(), check);
         let nc = ctx.share(ctx.tier.n(24, 240));
         ctx.run_generated(
